@@ -629,7 +629,8 @@ fn e2e_cases(rep: &mut Report, model: &mut Model, rng: &mut Rng, n: u64, big: bo
             let (ok, resp) = match mode {
                 1 => (false, Resp::Http { status: 500, body: "{\"error\":\"boom\"}".into() }),
                 2 => (false, Resp::Drop),
-                _ => (true, Resp::Sse { body, chunk: if chunk == 1 && big { 64 } else { chunk }, cut_at: None }),
+                // a body without a single byte is a stream that ended before its first byte: a failed request
+                _ => (!body.is_empty(), Resp::Sse { body, chunk: if chunk == 1 && big { 64 } else { chunk }, cut_at: None }),
             };
             script.push(ScriptResp { ok, has_id: has_id && ok, events: if ok { events } else { vec![] }, resp });
         }
